@@ -26,16 +26,16 @@ VALS = {  # deviation -> value per parameter
 PARS = ["rs", "r", "bs", "m"]
 
 
-def layout_text(target, tm):
+def layout_text(target, tm, sphase=0.0):
     lines = ["name template_tdm", "version 1.0", "target %s (shots=1)" % target, "type tdm (temporal_modes=2)"]
     for k, nm in enumerate(PARS):
         lines += ["float array p%d[1, %d] =" % (k, tm), "    {%s}" % nm]
-    lines += ["", "Sgate({rs}, 0.0) | 1", "Rgate({r}) | 0", "BSgate({bs}, 0.0) | [0, 1]", "MeasureHomodyne({m}) | 0"]
+    lines += ["", "Sgate({rs}, %s) | 1" % sphase, "Rgate({r}) | 0", "BSgate({bs}, 0.0) | [0, 1]", "MeasureHomodyne({m}) | 0"]
     return "\n".join(lines) + "\n"
 
 
-def device_spec(target, tmax):
-    return {"target": target, "layout": layout_text(target, 4), "modes": {"concurrent": 2, "spatial": 1, "temporal_max": tmax},
+def device_spec(target, tmax, sphase=0.0):
+    return {"target": target, "layout": layout_text(target, 4, sphase), "modes": {"concurrent": 2, "spatial": 1, "temporal_max": tmax},
             "compiler": [target], "gate_parameters": {k: list(v) for k, v in DOMS.items()}}
 
 
@@ -126,6 +126,17 @@ def _run_one(it):
         compiler_db[target].reset_circuit()
         rec = {}
         try:
+            if it.get("sequence"):
+                # the same process compiled for another device of this compiler class just before (same gates and modes, the squeezer's
+                # phase hard-wired to 0.3 there): the second compilation is judged against ITS device
+                other = sf.Device(spec=device_spec(target, tmax, sphase=0.3))
+                warm = sf.TDMProgram(N=2)
+                with warm.context(*[arrays[k] for k in PARS]) as (p, q):
+                    ops.Sgate(p[0], 0.3) | q[1]
+                    ops.Rgate(p[1]) | q[0]
+                    ops.BSgate(p[2], 0.0) | (q[0], q[1])
+                    ops.MeasureHomodyne(p[3]) | q[0]
+                warm.compile(device=other, compiler=target)
             comp = prog.compile(device=dev, compiler=target)
         except (CircuitError, ValueError) as e:
             rec["refused"] = "%s: %s" % (type(e).__name__, str(e)[:120])
@@ -172,12 +183,14 @@ def tdm_devices(chk):
     for j in r.json:
         for target in ("TDM", "TD2"):
             items.append(dict(j, target=target))
+            if j["inside"] and j["val"] == "none" and not j["swapped"]:
+                items.append(dict(j, target=target, sequence=True))
     res = common.pmap(_run_one, items)
     cases, owners = [], []
     stats = {"accepted": 0, "refused": 0, "refused_inside_promise": 0, "skipped": 0}
     for it, o in zip(items, res):
         f = {"compiler": it["target"], "gate_deviation": it["gate"], "value_deviation": it["val"], "too_long": bool(it["long"]),
-             "inside_promise": bool(it["inside"])}
+             "inside_promise": bool(it["inside"]), "after_other_device": bool(it.get("sequence"))}
         det = {"instance": {k: it[k] for k in ("T", "gate", "gpos", "val", "vpar", "vbin", "long", "swapped")}}
         if not o["ok"]:
             chk.violation("UnexpectedError", dict(f, error=o["err"]), dict(det, msg=o["msg"], tb=o["tb"]))
@@ -187,7 +200,7 @@ def tdm_devices(chk):
             stats["skipped"] += 1
             continue
         chk.traces += 1
-        chk.count(key=json.dumps([it[k] for k in ("target", "T", "gate", "gpos", "val", "vpar", "vbin", "long", "swapped")]), nontrivial=True)
+        chk.count(key=json.dumps([it[k] for k in ("target", "T", "gate", "gpos", "val", "vpar", "vbin", "long", "swapped")] + [bool(it.get("sequence"))]), nontrivial=True)
         if "refused" in rec:
             stats["refused"] += 1
             if it["inside"]:
